@@ -113,7 +113,7 @@ def logical_types(rng, thorough):
     pairs = list(itertools.permutations(["int", "float", "str", "bool", "none", "intwd", "weekend", "pos", "short", "laxshort",
                                          "even", "lint", "cls", "Decimal"], 2))
     if not thorough:
-        pairs = rng.sample(pairs, 70)
+        pairs = rng.sample(pairs, 70) + [("pos", "laxshort"), ("laxshort", "pos"), ("even", "laxshort"), ("intwd", "laxshort")]
     for a, b in pairs:
         out.append(("%s|%s" % (a, b), gen.logic("union", lv[a], lv[b])))
     xs = list(itertools.permutations(["int", "intwd", "weekend", "pos", "short", "even", "str", "float", "lint", "bool"], 2))
@@ -138,20 +138,26 @@ def logical_types(rng, thorough):
     return out
 
 
-def run(T, x, n, tag):
+def run(T, x, n, tag, opts=None):
     try:
         t = T.get("_built") or gen.build(T)
         T["_built"] = t
     except Exception as e:
         return None, "refused: %s" % type(e).__name__
     ok1, v1, ok2, v2, exc = True, None, False, None, []
+    if opts is not None:
+        # the same conversion preferences for both parses
+        import utype as _u
+        call = lambda v: _u.type_transform(v, t, options=_u.Options(**opts))      # noqa
+    else:
+        call = t
     try:
-        v1 = t(x)
+        v1 = call(x)
     except Exception as e:
         ok1, exc = False, exc_names(e)
     if ok1:
         try:
-            v2 = t(v1)
+            v2 = call(v1)
             ok2 = True
         except Exception as e:
             exc = exc_names(e)
@@ -199,7 +205,8 @@ def run(T, x, n, tag):
             a["_built"] = at
             for val, acc in ((x, raw), (v1, outp)):
                 try:
-                    utype.type_transform(val, at)       # how the combinator applies an argument (float([1]) itself would raise)
+                    # how the combinator applies an argument (float([1]) itself would raise), under the same preferences
+                    utype.type_transform(val, at, **({"options": utype.Options(**opts)} if opts else {}))
                     acc.append(True)
                 except Exception:
                     acc.append(False)
@@ -277,10 +284,10 @@ def main():
     rng = random.Random(ck.seed)
     records, n = [], 0
 
-    def add(T, x, tag):
+    def add(T, x, tag, opts=None):
         nonlocal n
         n += 1
-        rec, why = run(T, x, n, tag)
+        rec, why = run(T, x, n, tag, opts)
         if rec is None:
             ck.count("not_judged: " + why)
         else:
@@ -301,6 +308,11 @@ def main():
     for tag, T in logical_types(rng, thorough):
         for x in POOL:
             add(T, x, tag)
+        if T["k"] in ("union", "xor") and ("|" in tag or "^" in tag):
+            # the staged resolution of a union depends on the conversion preferences: the result must be a fixed point under each of them
+            for otag, opts in (("ndl", {"no_data_loss": True}), ("ne", {"no_explicit_cast": True})):
+                for x in (POOL if thorough else rng.sample(POOL, 12) + ["123", "12", b"123", 12.0]):
+                    add(T, x, tag + "@" + otag, opts)
     nu = len(records)
     for T, vals in universe(ck):
         for x in vals:
